@@ -66,6 +66,18 @@ func checkC20(c *Ctx) error {
 				cfg.KV{K: fmt.Sprintf("cat%d", k), V: cfg.Str(fmt.Sprintf("a%%envS%d%%-%%envI%d%%", k, k))},
 				cfg.KV{K: fmt.Sprintf("td%d", k), V: cfg.Str(fmt.Sprintf("%%todo(\"later %d\")%%", k))})
 		}
+		// long concatenations (9, 11 and 17 chunks), as parameters and - below - as arguments of services of every scope: whatever
+		// a generated helper does for long patterns, it does it for several goroutines at once (round 13, S250)
+		conf.Params = append(conf.Params,
+			cfg.KV{K: "long0", V: cfg.Str("%envS0%-%envI0%-%envS1%-%envI1%-%envS2%")},
+			cfg.KV{K: "long1", V: cfg.Str("x%envS1%/%envI1%/%envS2%/%envI2%/%envS0%y")},
+			cfg.KV{K: "long2", V: cfg.Str("%envI2%%envS2%%envI1%%envS1%%envI0%%envS0%%cat0%%cat1%%cat2%:%envS0%%envS1%%envS2%%envI0%%envI1%%envI2%%cat0%")})
+		for si := range conf.Services {
+			sv := &conf.Services[si]
+			if sv.Constructor != nil && !sv.IsTodo() && si%3 == 1 {
+				sv.Args = append(sv.Args, cfg.Str(fmt.Sprintf("%%envS%d%%.%%envI%d%%.%%envS%d%%.%%envI%d%%.%%cat%d%%", si%3, (si+1)%3, (si+2)%3, si%3, (si+1)%3)))
+			}
+		}
 		for si := range conf.Services {
 			sv := &conf.Services[si]
 			if sv.Constructor != nil && !sv.IsTodo() {
@@ -161,7 +173,7 @@ func checkC20(c *Ctx) error {
 			}
 			// first operations: every goroutine starts on a different parameter that goes through a shared generated helper
 			// (each parameter has its own lock in the runtime, so these evaluations really overlap right after the barrier)
-			helpers := []string{"envS0", "envI0", "cat0", "envS1", "envI1", "cat1", "envS2", "envI2", "cat2", "td0", "td1", "td2"}
+			helpers := []string{"envS0", "long0", "envI0", "long1", "cat0", "long2", "envS1", "envI1", "cat1", "long0", "envS2", "long1", "envI2", "cat2", "long2", "td0", "td1", "td2"}
 			for gi := 0; gi < G; gi++ {
 				flat[gi*reps] = probe.Op{Op: "param", Name: helpers[(gi+rd)%len(helpers)]}
 			}
